@@ -572,6 +572,15 @@ func (vc *VC) evalCall(x *ECall, env *Env, st, old *State) Val {
 	case "fresh":
 		a := arg(0)
 		return Val{K: KBool, T: tBool, S: sx(">=", sx("rootOf", vc.addrOf(a)), old.alloc)}
+	case "pre": // value in the state just before the instruction of an update/assert site
+		if vc.preInstr == nil {
+			panic(unsupported("pre() outside an update/assert clause"))
+		}
+		return vc.evalVal(x.Args[0], env, vc.preInstr, old)
+	case "ptrof": // the pointer wrapped in an interface value
+		a := arg(0)
+		vc.declareRaw("fun:iface_ptr", "(declare-fun iface_ptr (Int) Addr)")
+		return Val{K: KPtr, T: types.NewPointer(tInt), S: sx("iface_ptr", a.S)}
 	case "live": // refers to memory allocated so far in this state
 		a := arg(0)
 		return Val{K: KBool, T: tBool, S: sx("<", sx("rootOf", vc.addrOf(a)), st.alloc)}
@@ -676,8 +685,12 @@ func (vc *VC) evalGhost(g *GhostDecl, x *ECall, env *Env, st, old *State) Val {
 	if g.Rigid {
 		fn := "G_" + g.Name
 		var ps []string
-		for range g.Params {
-			ps = append(ps, "Int")
+		for _, gp := range g.Params {
+			if gp.Type == "addr" {
+				ps = append(ps, "Addr")
+			} else {
+				ps = append(ps, "Int")
+			}
 		}
 		vc.declareRaw("fun:"+fn, fmt.Sprintf("(declare-fun %s (%s) %s)", fn, strings.Join(ps, " "), srt))
 		if len(args) == 0 {
@@ -686,7 +699,11 @@ func (vc *VC) evalGhost(g *GhostDecl, x *ECall, env *Env, st, old *State) Val {
 		return Val{K: k, T: tInt, S: sx(fn, args...), Sort: srt}
 	}
 	comp := "|G:" + g.Name + "|"
-	vc.regCompFull(comp, "(Array Int "+srt+")")
+	keySort := "Int"
+	if len(g.Params) > 0 && g.Params[0].Type == "addr" {
+		keySort = "Addr"
+	}
+	vc.regCompFull(comp, "(Array "+keySort+" "+srt+")")
 	return Val{K: k, T: tInt, S: sx("select", vc.heap(st, comp), args[0]), Sort: srt}
 }
 
